@@ -352,6 +352,31 @@ theorem C02_mixed_indent_rejected (g : GState) (ind rest : Bytes)
   obtain ⟨st', hp⟩ := hparse
   simp only [genStep, hp]
 
+/-- M3 — a row indented with the other blank than the one the document uses (a tab in a space-indented
+    document or the reverse) is rejected, naming the row, whatever follows the indentation -/
+theorem C02_wrong_indent_char_rejected (g : GState) (c c' : UInt8) (m : Nat) (rest : Bytes)
+    (hsep : g.p.sep = some c) (hc' : c' = sp ∨ c' = tab) (hne : c' ≠ c)
+    (hnb : isBlank (List.replicate (m + 1) c' ++ rest) = false) :
+    genStep g (List.replicate (m + 1) c' ++ rest) = .error (.format (List.replicate (m + 1) c' ++ rest)) := by
+  have hsr := separateRow_wrong_char g.p c c' m rest hsep hc' hne
+  have hparse : ∃ st', parse g.p (List.replicate (m + 1) c' ++ rest) = (st', .error .incorrect) := by
+    cases hs : separateRow g.p (List.replicate (m + 1) c' ++ rest) with
+    | mk st' r =>
+      rw [hs] at hsr
+      simp only at hsr
+      subst hsr
+      refine ⟨st', ?_⟩
+      unfold parse
+      rw [hnb]
+      simp only [List.replicate_succ, List.cons_append] at hs ⊢
+      rcases hc' with rfl | rfl
+      · simp only [sp] at hs ⊢
+        simp [hs]
+      · simp only [tab] at hs ⊢
+        simp [hs]
+  obtain ⟨st', hp⟩ := hparse
+  simp only [genStep, hp]
+
 /-- such rows exist: "␠⇥- z" is not blank -/
 example : isBlank ([sp, tab] ++ [hy, sp, 0x7A]) = false := by decide
 
